@@ -1394,6 +1394,14 @@ Proof.
     pose proof (Hdc n s3 W3) as H4.
     destruct (dispose_children true f n s3) as [[] s4|er s4]; cbn [bind_res]; [|exact H4].
     destruct H4 as (W4 & F4).
+    assert (Hn3 : next s3 = next s) by exact Hn2.
+    assert (Hb3 : batching s3 = batching s) by exact Hb2.
+    destruct (alive n s4) eqn:Ha4; cbn [andb negb].
+    2:{ (* a cleanup of the previous run disposed the node: the update stops here *)
+      split; [exact W4|].
+      eapply (frame_update s s3 s4 s4 n nd); try eassumption; try congruence; try reflexivity.
+      -- intros y _. apply vsame_refl.
+      -- intros nd' Hnd'. apply alive_false in Ha4. congruence. }
     set (B := set_tracker (Some []) (set_current (Some n) s4)).
     pose proof (Hbody c B (W4 : WF B)) as H5.
     destruct (run_body true f c B) as [new s5|er s5]; cbn [bind_res]; [|exact H5].
@@ -1401,8 +1409,6 @@ Proof.
     set (s6 := set_current (current s4) (set_tracker (tracker s4) s5)).
     assert (W6 : WF s6) by exact W5.
     assert (F36 : frame s3 s6) by (eapply frame_trans; [exact F4|exact F5]).
-    assert (Hn3 : next s3 = next s) by exact Hn2.
-    assert (Hb3 : batching s3 = batching s) by exact Hb2.
     destruct (alive n s6) eqn:Ha; cbn [andb negb].
     * apply alive_true in Ha as [nd6 Hnd6].
       assert (Hbusy : n_value nd6 = None).
